@@ -344,3 +344,41 @@ Proof.
   destruct (no_extras_partial o pl f f' lg r Hwf H q) as [X|[X|[_ [_ [w [Hw Pw]]]]]]; [exact X | contradiction|].
   exfalso. exact (N2 w Hw Pw).
 Qed.
+
+(* ------------------------------------------------------------------ permission bits *)
+Definition node_mode (o : option node) : option N :=
+  match o with Some (NFile m _ _) => Some m | Some (NDir m) => Some m | _ => None end.
+
+(* containment covers permission bits: outside DESTDIR no mode changes either *)
+Theorem containment_modes_partial : forall o pl f f' lg r,
+  wf_plan o pl = true -> do_install o pl f = (f', lg, r) ->
+  forall q, ~ is_prefix (cleanp (effective_destdir o pl)) q -> ~ is_prefix q (cleanp (effective_destdir o pl)) ->
+            node_mode (lookup f' q) = node_mode (lookup f q).
+Proof.
+  intros o pl f f' lg r Hwf H q N1 N2.
+  destruct (containment_partial o pl f f' lg r Hwf H q) as [X|[X|[_ [_ X]]]]; [rewrite X; reflexivity | contradiction | contradiction].
+Qed.
+
+(* set_chmod (minstall.py:197-203) never acts through a symbolic link: setting the mode of a path that
+   is a link leaves the whole filesystem as it is - the link and whatever it points to *)
+Lemma m_chmod_link_noop f p m f' t :
+  nodd p = true -> lookup f (cleanp p) = Some (NLink t) -> m_chmod f p m = Ok f' -> f' = f.
+Proof.
+  intros Hn L H. unfold m_chmod, resolve_x in H. destruct (resolve f p) as [c|e] eqn:R; [|destruct e; discriminate].
+  apply resolve_nodd in R; [subst c | exact Hn]. destruct (cleanp p) as [|x c]; [inversion H; reflexivity|].
+  rewrite L in H. inversion H. reflexivity.
+Qed.
+
+Theorem set_mode_on_link_changes_nothing : forall c p mode s s' r t,
+  nodd p = true -> lookup (s_fs s) (cleanp p) = Some (NLink t) ->
+  set_mode c p mode s = (s', r) -> s_fs s' = s_fs s.
+Proof.
+  intros c p mode s s' r t Hn L H. unfold set_mode in H. destruct (c_dry c) eqn:Dry; [inversion H; reflexivity|].
+  assert (forall pm s2 r2, mutate c (fun f => m_chmod f p pm) s = (s2, r2) -> s_fs s2 = s_fs s) as Ch.
+  { intros pm s2 r2 X. unfold mutate in X. rewrite Dry in X. destruct (m_chmod (s_fs s) p pm) as [f2|e] eqn:E; inversion X; subst; [|reflexivity].
+    simpl. eapply m_chmod_link_noop; eauto. }
+  destruct mode as [pm|]; [eapply Ch; eauto|].
+  unfold sanitize_raw in H. destruct (c_umask c) as [um|]; [|inversion H; reflexivity].
+  unfold bind, query in H. destruct (lnode (s_fs s) p) as [[nd0|]|e]; simpl in H; try (inversion H; reflexivity).
+  eapply Ch; eauto.
+Qed.
